@@ -84,3 +84,70 @@ func verifC05(n Name) (base []byte, parts [][]byte, b2 []byte) {
 	b2 = n.Base()
 	return
 }
+
+// ---------------------------------------------------------------------------
+// Reader: line scanners (C02, C03)
+
+//@ pure func asciiSpace(c byte) bool = c == 9 || c == 10 || c == 11 || c == 12 || c == 13 || c == 32
+//@ pure func blank(c byte) bool = c == ' ' || c == '\t'
+
+//@ pure func kvShape(line []byte, c int) bool = 0 < c < len(line) && line[c] == ':' &&
+//@     (forall j int :: 0 <= j < c ==> line[j] < 128 && line[j] != ':' && !asciiSpace(line[j]) && !('A' <= line[j] && line[j] <= 'Z')) &&
+//@     'a' <= line[0] && line[0] <= 'z' && (c+1 == len(line) || blank(line[c+1]))
+
+//@ func parseKeyValueLine(line []byte) (key, val []byte, ok bool)
+//@   props C02 C01
+//@   ensures !ok ==> !(exists c int :: kvShape(line, c))
+//@   ensures ok ==> 0 < len(key) < len(line) && key === line[:len(key)] && line[len(key)] == ':'
+//@   ensures ok ==> forall j int :: 0 <= j < len(key) ==> line[j] != ':' && !asciiSpace(line[j]) && !('A' <= line[j] && line[j] <= 'Z')
+//@   ensures ok ==> line[0] >= 128 || ('a' <= line[0] && line[0] <= 'z')
+//@   ensures ok ==> sub(val, line) && end(val) == end(line) && off(val) >= off(line)+len(key)+1
+//@   ensures ok ==> forall j int :: len(key)+1 <= j < off(val)-off(line) ==> blank(line[j])
+//@   ensures ok && len(val) > 0 ==> !blank(val[0]) && off(val) > off(line)+len(key)+1
+//@   loop 1:
+//@     invariant 0 <= i <= len(line) && len(key) == 0 && len(val) == 0 && !ok
+//@     invariant forall j int :: 0 <= j < i ==> line[j] != ':' && !asciiSpace(line[j]) && !('A' <= line[j] && line[j] <= 'Z')
+//@     invariant i > 0 ==> line[0] >= 128 || ('a' <= line[0] && line[0] <= 'z')
+//@     decreases len(line) - i
+//@   loop 2:
+//@     invariant 0 < len(key) < len(line) && key === line[:len(key)] && line[len(key)] == ':'
+//@     invariant sub(val, line) && end(val) == end(line) && off(val) >= off(line)+len(key)+1
+//@     invariant forall j int :: len(key)+1 <= j < off(val)-off(line) ==> blank(line[j])
+//@     invariant ok <==> off(val) > off(line)+len(key)+1
+//@     invariant forall j int :: 0 <= j < len(key) ==> line[j] != ':' && !asciiSpace(line[j]) && !('A' <= line[j] && line[j] <= 'Z')
+//@     invariant line[0] >= 128 || ('a' <= line[0] && line[0] <= 'z')
+//@     decreases len(val)
+
+//@ func splitField(x []byte) (field, rest []byte)
+//@   props C02
+//@   ensures len(field) <= len(x) && field === x[:len(field)]
+//@   ensures forall j int :: 0 <= j < len(field) ==> !asciiSpace(x[j])
+//@   ensures len(field) < len(x) && x[len(field)] < 128 ==> asciiSpace(x[len(field)])
+//@   ensures len(field) == len(x) ==> len(rest) == 0
+//@   ensures len(rest) > 0 ==> sub(rest, x) && end(rest) == end(x) && off(rest) > off(x)+len(field)
+//@   ensures len(rest) > 0 && rest[0] < 128 ==> !asciiSpace(rest[0])
+//@   ensures forall j int :: len(field) <= j < (len(rest) > 0 ? off(rest)-off(x) : len(x)) && x[j] < 128 ==> asciiSpace(x[j])
+//@   loop 1:
+//@     invariant 0 <= i <= len(x) && rest == nil && len(rest) == 0 && len(field) == 0
+//@     invariant forall j int :: 0 <= j < i ==> !asciiSpace(x[j])
+//@     decreases len(x) - i
+//@   loop 2:
+//@     invariant len(field) <= len(x) && field === x[:len(field)]
+//@     invariant forall j int :: 0 <= j < len(field) ==> !asciiSpace(x[j])
+//@     invariant len(field) == len(x) ==> len(rest) == 0
+//@     invariant len(field) < len(x) ==> (x[len(field)] < 128 ==> asciiSpace(x[len(field)]))
+//@     invariant len(field) < len(x) ==> sub(rest, x) && end(rest) == end(x) && off(rest) > off(x)+len(field)
+//@     invariant len(field) < len(x) ==> forall j int :: len(field) <= j < off(rest)-off(x) && x[j] < 128 ==> asciiSpace(x[j])
+//@     decreases len(rest)
+
+//@ rec func decval(x []byte, k int) int = k <= 0 ? 0 : 10*decval(x, k-1) + (x[k-1] - '0')
+
+//@ func atof(x []byte) (f float64, err error)
+//@   props C03
+//@   ensures (forall j int :: 0 <= j < len(x) ==> isdigit(x[j])) && (forall k int :: 0 <= k < len(x) ==> decval(x, k) <= 922337203685477579) ==>
+//@             err == nil && f == float64(decval(x, len(x)))
+//@   loop 1:
+//@     invariant 0 <= idx() <= len(x) && val == decval(x, idx()) && 0 <= val
+//@     invariant forall j int :: 0 <= j < idx() ==> isdigit(x[j])
+//@     invariant forall k int :: 0 <= k < idx() ==> decval(x, k) <= 922337203685477579
+//@     decreases len(x) - idx()
